@@ -1062,7 +1062,8 @@ func (eval Evaluator) tensorScaleInvariant(ct0 *rlwe.Ciphertext, ct1 *rlwe.Eleme
 		ringQ.Add(opOut.Value[1], tmpCt.Value[1], opOut.Value[1])
 	}
 
-	opOut.Scale = MulScaleInvariant(eval.parameters, ct0.Scale, tmp1Q0.Scale, level)
+	// tmp0Q0 and tmp1Q0 are the two operands (swapped if the second one is the output)
+	opOut.Scale = MulScaleInvariant(eval.parameters, tmp0Q0.Scale, tmp1Q0.Scale, level)
 
 	return
 }
